@@ -11,22 +11,34 @@ Local Open Scope Z_scope.
     supply is conserved by a commit iff the cached balances of the dirty accounts sum
     to their bank balances — the "mirror" obligation of every precompile. *)
 Theorem C02_commit_mints_or_burns_exactly_cache_minus_bank :
-  forall W D a o W' D', objs D !! a = Some o -> commit_one W D a = (W', D', true) ->
+  forall W D a o W' D', objs D !! a = Some o -> osui o = false -> commit_one W D a = (W', D', true) ->
     zg (bank W') a = obal o /\
     supply W' = supply W + (obal o - zg (bank W) a) /\
     (forall b, b <> a -> zg (bank W') b = zg (bank W) b).
 Proof. exact commit_one_exact. Qed.
 Print Assumptions C02_commit_mints_or_burns_exactly_cache_minus_bank.
 
+(** ... and a self-destructed contract is deleted: exactly its bank balance is burned (the
+    sanctioned burn; nothing when its account is gone already), nobody else's balance moves. *)
+Theorem C02_commit_of_self_destructed_contract_burns_exactly_its_balance :
+  forall W D a o W' D' ok, objs D !! a = Some o -> osui o = true -> commit_one W D a = (W', D', ok) ->
+    ok = true /\ D' = D /\ a ∉ wexists W' /\
+    (a ∈ wexists W -> zg (bank W') a = 0 /\ supply W' = supply W - zg (bank W) a) /\
+    (a ∉ wexists W -> W' = W) /\
+    (forall b, b <> a -> zg (bank W') b = zg (bank W) b).
+Proof. exact commit_one_suicided_exact. Qed.
+Print Assumptions C02_commit_of_self_destructed_contract_burns_exactly_its_balance.
+
 (** The supply delta of a whole commit, for ANY cache and ANY program that produced it:
-    the sum, over the dirty accounts, of cached balance minus bank balance. *)
+    the sum, over the dirty accounts, of cached balance minus bank balance (minus the bank
+    balance for a self-destructed contract, see [gap1]). *)
 Theorem C02_commit_supply_delta_formula :
   forall order W D W' D', NoDup order -> commit_list W D order = (W', D', true) ->
     supply W' = supply W + lsumz (gap1 W D) order.
 Proof. exact commit_supply_formula. Qed.
 Print Assumptions C02_commit_supply_delta_formula.
 
-(** Every pure EVM transaction — any call tree of value transfers between any of the
+(** Every pure EVM transaction without SELFDESTRUCT — any call tree of value transfers between any of the
     accounts, storage writes, logs, reverts at any place with catching or propagating
     callers, any amounts — leaves the total supply of the native coin unchanged.  This
     is about the real transaction function [run_tx] (empty cache, lazy loading, final
@@ -35,7 +47,7 @@ Print Assumptions C02_commit_supply_delta_formula.
 Theorem C02_pure_transaction_conserves_supply :
   forall order W0 value c body,
     NoDup order -> world_ok W0 -> (forall a, a ∈ wexists W0 -> a ∈ order) -> 0%N ∈ order -> c ∈ order ->
-    forallb pure body = true -> forallb (closedb order) body = true ->
+    forallb pure body = true -> forallb nosd body = true -> forallb (closedb order) body = true ->
     supply (fst (run_tx order W0 value (TopCall c body))) = supply W0.
 Proof. exact pure_run_tx_conserves_supply. Qed.
 Print Assumptions C02_pure_transaction_conserves_supply.
@@ -81,3 +93,26 @@ Theorem C02_contract_transfers_for_signer_minted_refuted_K15 :
   b_supply (model_obs w_k15_contract_transfers_for_origin) = 154.
 Proof. exact k15_refuted. Qed.
 Print Assumptions C02_contract_transfers_for_signer_minted_refuted_K15.
+
+(** SELFDESTRUCT on witnesses reproduced exactly by the model: paying out to another account conserves
+    the supply; self-destructing to oneself, and value reaching a contract after its self-destruct, are
+    destroyed (the only sanctioned burn); a staking call after the self-destruct cannot spend the
+    balance a second time. *)
+Theorem C02_selfdestruct_to_other_conserves_example :
+  model_obs w_sd_to_other = impl_obs w_sd_to_other /\ b_ok (model_obs w_sd_to_other) = true /\
+  b_supply (model_obs w_sd_to_other) = 0 /\ b_alive (model_obs w_sd_to_other) = [false; true; true] /\
+  nth 1 (b_bal (model_obs w_sd_to_other)) 0 = 5025.
+Proof. exact sd_to_other_conserves. Qed.
+Print Assumptions C02_selfdestruct_to_other_conserves_example.
+
+Theorem C02_selfdestruct_to_self_is_the_sanctioned_burn_example :
+  model_obs w_sd_to_self = impl_obs w_sd_to_self /\ b_ok (model_obs w_sd_to_self) = true /\
+  b_supply (model_obs w_sd_to_self) = -4025.
+Proof. exact sd_to_self_burns. Qed.
+Print Assumptions C02_selfdestruct_to_self_is_the_sanctioned_burn_example.
+
+Theorem C02_selfdestruct_then_delegate_cannot_spend_twice_example :
+  model_obs w_sd_then_delegate = impl_obs w_sd_then_delegate /\ b_ok (model_obs w_sd_then_delegate) = true /\
+  b_supply (model_obs w_sd_then_delegate) = 0 /\ nth 2 (b_deleg (model_obs w_sd_then_delegate)) 0 = 0.
+Proof. exact sd_then_delegate_conserves. Qed.
+Print Assumptions C02_selfdestruct_then_delegate_cannot_spend_twice_example.
